@@ -1,10 +1,10 @@
 #!/bin/bash
-# thorough tier of every check, relative to the directory this script lives in (usable from a `vp run` snapshot)
+# thorough tier of every check (or of those in N2V_ONLY="04 05"), relative to the directory this script lives in (usable from a `vp run` snapshot)
 cd "$(dirname "$0")"
 # in a `vp run --with-repo` snapshot: test the repository snapshot, not /repo (which may be patched by seed trials meanwhile)
 if [ -n "$VP_RUN_REPO" ]; then export N2V_REPO=$VP_RUN_REPO; sed -i "s#path = \"/repo\"#path = \"$VP_RUN_REPO\"#" harness/Cargo.toml; fi
 [ -d .cache ] || ./setup.sh > setup.log 2>&1
-for i in $(seq -w 1 20); do
+for i in ${N2V_ONLY:-$(seq -w 1 20)}; do
   s=$(date +%s)
   out=$(VERIF_TIER=thorough timeout 14400 ./check C$i --tier thorough 2>&1); r=$?
   echo "$out" | grep -E "^(C$i |VIOLATION|KNOWN-FINDING)" | cut -c1-260
